@@ -342,7 +342,13 @@ def rule_r7(ctx):
     c13.rule_r3(ctx, rid="C18.R7")
 
 
-RULES = [rule_r1, rule_r2, rule_r3, rule_r4, rule_r5, rule_r6, rule_r7]
+def rule_r8(ctx):
+    """Shared with C04.R4: pop and re-dispatch are one requests_lock region - a request dispatched twice is popped by the first finisher while the second is still executing, and an executing connection with an empty queue is reaped."""
+    from . import c04
+    c04.rule_r4(ctx, rid="C18.R8")
+
+
+RULES = [rule_r1, rule_r2, rule_r3, rule_r4, rule_r5, rule_r6, rule_r7, rule_r8]
 
 from ..selftest import M, T, V  # noqa: E402
 
